@@ -128,6 +128,19 @@ def scenario_mixes(res, ctx, rng):
                     sc = H.nest_into(sc, inner, rng.randrange(1, len(sc)))
                     res.count('nested_templates')
                 prog += sc
+            if rng.random() < 0.2:
+                # the same END record without its START twice (a dump that begins inside two nested interrupts / calls):
+                # once early, once after further complete sequences
+                ends = [a for a in prog if a[1] == H.END]
+                name_x = rng.choice(H.inventory()['decodable'])
+                x = rng.choice(ends) if ends and rng.random() < 0.6 else \
+                    (H.A(name_x, H.END, domain.gen_words(rng, name_x, 'E')) if name_x not in domain.TEXT_PAYLOAD else None)
+                if x is not None:
+                    i = rng.randrange(0, len(prog) + 1)
+                    prog.insert(i, x)
+                    prog.insert(rng.randrange(i + 1, len(prog) + 1), x)
+                    prog.append(x)
+                    res.count('programs_with_repeated_orphan_end')
             programs.append(prog)
         order = H.random_interleaving(rng, programs)
         items = [(10 + t, programs[t][i]) for t, i in order]
@@ -191,6 +204,7 @@ def run(ctx):
                         'direction one of the five named, SOL_SOCKET => declared option, text fields valid UTF-8)']
     res.require('events_fed', 100)
     res.require('traces_rendered', 10)
+    res.require('programs_with_repeated_orphan_end', 5)
     return res
 
 
